@@ -45,6 +45,7 @@ structure St where
   poolS : List BagState := []
   rejected : Bool := false
   violated : Option String := none
+  traceOnly : Bool := false             -- long producer/consumer runs: only the trace predicates (holding discipline) are evaluated
   holding : List (Nat × Nat) := []      -- (goroutine, item) pairs currently held, from the trace
   everPut : List Nat := []
 
@@ -109,6 +110,10 @@ def step (st : St) (toks : List Val) (_impl : String) : St × Out :=
   | [.w "av"] =>
     ({ mode := .av, avM := [AtomicObj.init AtomicValue.spec 0], avS := [AtomicObj.init Spec.Register.spec 0] },
      { model := "ok", spec := some "ok", tags := ["av"] })
+  | [.w "pool", .i hn, .w "trace"] =>
+    -- header of a long run: the state-set constructions (model acceptance, bag linearizability) are skipped — with hundreds of items in the
+    -- bag and overlapping Gets they are astronomically large — and only the holding discipline is judged on the trace
+    ({ mode := .pool (hn != 0), traceOnly := true }, { model := "ok", spec := some "ok", tags := ["pool.trace-only"] })
   | [.w "pool", .i hn] =>
     let hasNew := hn != 0
     ({ mode := .pool hasNew, poolM := [Pool.init 0], poolS := [AtomicObj.init (Pool.bagSpec hasNew) 0] },
@@ -140,8 +145,8 @@ def step (st : St) (toks : List Val) (_impl : String) : St × Out :=
       | some e =>
         let t := evTid e
         let n := if t + 1 > st.n then t + 1 else st.n
-        let m' := if st.rejected then [] else stepPool hasNew n st.poolM e
-        let s' := if st.violated.isSome then [] else stepBag hasNew n st.poolS e
+        let m' := if st.rejected || st.traceOnly then [] else stepPool hasNew n st.poolM e
+        let s' := if st.violated.isSome || st.traceOnly then [] else stepBag hasNew n st.poolS e
         -- the holding discipline, on the trace
         let (holding, everPut, disc) : List (Nat × Nat) × List Nat × Option String := match e with
           | .inv t (.put id) =>
@@ -158,14 +163,14 @@ def step (st : St) (toks : List Val) (_impl : String) : St × Out :=
           | some w => some w
           | none => match disc with
             | some w => some w
-            | none => if s'.isEmpty then some "not-linearizable" else none
+            | none => if s'.isEmpty && !st.traceOnly then some "not-linearizable" else none
         let tag := match e with
           | .inv _ .get => "pool.get" | .inv _ (.put _) => "pool.put"
           | .res _ (.item id) => if id == 0 then "pool.got.zero" else if id ≥ 1000 then "pool.got.new" else "pool.got.pooled"
           | .res _ .done => "pool.put.done"
-        ({ st with n := n, poolM := m', poolS := s', rejected := st.rejected || m'.isEmpty, violated := violated,
+        ({ st with n := n, poolM := m', poolS := s', rejected := st.rejected || (m'.isEmpty && !st.traceOnly), violated := violated,
                    holding := holding, everPut := everPut },
-         { model := modelOut st.rejected m'.isEmpty what, spec := some (specOut violated), tags := [tag] })
+         { model := if st.traceOnly then "ok" else modelOut st.rejected m'.isEmpty what, spec := some (specOut violated), tags := [tag] })
 
 def judge : Judge := { σ := St, init := {}, step := step }
 
